@@ -6,6 +6,7 @@ import Q1t.Proofs.LatexShape
 import Q1t.Proofs.LatexInv
 import Q1t.Proofs.LatexOnce
 import Q1t.Proofs.LatexExpect
+import Q1t.Proofs.LatexProv
 /-!
 # C13 — the LaTeX (qcircuit) export is a well-formed grid depicting the circuit; undrawable operations are errors
 
@@ -14,7 +15,7 @@ Property theorems only.  Statements are about the executable model `Q1t.Latex` o
 correspondence run of `tools/check.py C13`), and about the grid of symbols `Q1t.Latex.grid` that the
 model's `code` prints (that the exported TEXT reads back as this grid is checked at run time by the
 reader `Spec.QcGrid.readDoc` on the implementation's output, not proved).
-Proofs are in `Q1t/Proofs/Latex{Basic,Shape,Conn,Inv,Trace,Stages,Once,Expect}.lean`.
+Proofs are in `Q1t/Proofs/Latex{Basic,Shape,Conn,Inv,Trace,Stages,Once,Expect,Prov}.lean`.
 -/
 namespace Q1t.Props.C13
 open Q1t.Latex Q1t.Spec.QcGrid Q1t.Proofs.Latex
@@ -92,9 +93,11 @@ All for circuits whose operations satisfy `opOk` (the class of `connectors_in_gr
 FULL STATEMENTS (for all drawable circuits) are false on the pinned code: see the negative witnesses
 (`neg_conditional_composite_overwrites`: an operation's symbol is lost; `neg_barrier_column_reused`: a
 later operation is drawn left of / under an earlier barrier; `neg_controlled_kron_unconnected`).
-What is NOT proved here: that `circStages` agrees with the independent reader's expectation
-`Spec.QcGrid.opItems` for Kron / Composite / Loop (proved for one-column operations only:
-`stage_is_expected_partial`); multi-qubit block gates (outside `opOk`). -/
+The tie of `circStages` to the independent reader's expectation `Spec.QcGrid.opItems` is
+`stages_are_expected_partial` (all `opOk` operations except reset_all / barrier, whose stages the reader
+groups differently) and `stage_is_expected_partial` (one-column operations).
+What is NOT proved: multi-qubit block gates (outside `opOk`); that the reader's left-to-right matching
+(`Spec.QcGrid.check`, an executable search) accepts the printed text — that is evaluated by (B). -/
 
 /-- **each_op_once** (partial: `opOk`) — the final matrix is EXACTLY the reference stages of the
 operations, each stage laid out in ONE column of the grid, with the provenance of its operation:
@@ -114,23 +117,31 @@ theorem each_op_once_partial (c : Circ) (s : St) (hop : ∀ op ∈ c.ops, opOk o
   obtain ⟨L, d⟩ := export_drawn hop h
   exact ⟨L, d.stages, d.sorted, fun g hg => ⟨d.inGrid g hg, d.nodup g hg⟩, d.cells⟩
 
-/-- **wire_order** (partial: `opOk`) — operations appear left to right in program order: a symbol of a
-later operation is never in an earlier column than a symbol of an earlier operation, and on one and
-the same wire it is in a strictly later column. (About the symbols an operation WRITES; the wires a barrier merely covers are not
-reserved by the pinned code — known finding `span:barrier`, `neg_barrier_column_reused`.) -/
+/-- **wire_order** — for EVERY circuit (any operations, inside the proved class or not, any register):
+the operation index of the symbols never decreases from left to right over the whole grid … -/
+theorem column_order (c : Circ) (s : St) (h : exportSt c = .ok s) (c1 c2 r1 r2 : Nat) (x1 x2 : Cell)
+    (h1 : Has s c1 r1 x1) (h2 : Has s c2 r2 x2) (hlt : c1 < c2) : x1.prov ≤ x2.prov :=
+  prov_monotone (exportSt_pm h) h1 h2 hlt
+
+/-- … hence on every wire the operations that have a symbol on it appear in program order: a symbol of
+a later operation is never in an earlier column than a symbol of an earlier operation, and on one and
+the same wire it is in a strictly later column. (About the symbols present in the final matrix, with
+the provenance of their last writer: that no symbol is overwritten or lost is `each_op_once_partial`.
+About the symbols an operation WRITES: the wires a barrier merely covers are not reserved by the pinned
+code — known finding `span:barrier`, `neg_barrier_column_reused`.) -/
+theorem wire_order (c : Circ) (s : St) (h : exportSt c = .ok s) (c1 c2 r1 r2 : Nat) (x1 x2 : Cell)
+    (h1 : Has s c1 r1 x1) (h2 : Has s c2 r2 x2) (hlt : x1.prov < x2.prov) :
+    c1 ≤ c2 ∧ (r1 = r2 → c1 < c2) :=
+  prov_wire_order (exportSt_pm h) h1 h2 hlt
+
+/-- For circuits of the proved class the same follows from the layout (`each_op_once_partial`), with
+the additional information that the two symbols are in different placed stages. -/
 theorem wire_order_partial (c : Circ) (s : St) (hop : ∀ op ∈ c.ops, opOk op = true)
     (h : exportSt c = .ok s) (c1 c2 r1 r2 : Nat) (x1 x2 : Cell)
     (h1 : Has s c1 r1 x1) (h2 : Has s c2 r2 x2) (hlt : x1.prov < x2.prov) :
     c1 ≤ c2 ∧ (r1 = r2 → c1 < c2) := by
   obtain ⟨L, d⟩ := export_drawn hop h
   exact drawn_order d h1 h2 hlt
-
-/-- … equivalently: provenance is non-decreasing from left to right over the whole grid. -/
-theorem column_order_partial (c : Circ) (s : St) (hop : ∀ op ∈ c.ops, opOk op = true)
-    (h : exportSt c = .ok s) (c1 c2 r1 r2 : Nat) (x1 x2 : Cell)
-    (h1 : Has s c1 r1 x1) (h2 : Has s c2 r2 x2) (hlt : c1 < c2) : x1.prov ≤ x2.prov := by
-  obtain ⟨L, d⟩ := export_drawn hop h
-  exact drawn_column_order d h1 h2 hlt
 
 /-- **connector_span_clear** (partial: `opOk`) — every line of every cell ends, inside its column, on
 a partner symbol drawn by the SAME operation, and every explicit cell strictly between the two ends of
@@ -142,15 +153,8 @@ theorem connector_span_clear_partial (c : Circ) (s : St) (hop : ∀ op ∈ c.ops
     (hln : ln ∈ x.sym.lines) :
     ∃ (t : Nat) (y : Cell), (r : Int) + ln.1 = (t : Int) ∧ Has s col t y ∧
       Sym.partnerOk ln.2 y.sym = true ∧ y.prov = x.prov ∧
-      ∀ (r' : Nat) (z : Cell), Between r t r' → Has s col r' z → z.prov = x.prov := by
-  have hsp := export_span hop h
-  obtain ⟨cl, hmem, hc, hr⟩ := has_col hx
-  obtain ⟨t, y, ht, hy, hp, hpr⟩ := hsp.partner cl hmem r x hr ln hln
-  refine ⟨t, y, ht, ⟨cl, hc, hy⟩, hp, hpr, ?_⟩
-  intro r' z hb hz
-  obtain ⟨cl', _, hc', hz'⟩ := has_col hz
-  rw [hc] at hc'; injection hc' with hc'; subst hc'
-  exact hsp.all cl hmem r x hr ln hln t ht r' z hb hz'
+      ∀ (r' : Nat) (z : Cell), Between r t r' → Has s col r' z → z.prov = x.prov :=
+  span_clear_of_span (export_span hop h) hx hln
 
 /-- The span invariant for any operation history (not only from the empty state). -/
 theorem span_invariant (s s' : St) (L : List Stg) (hi : Inv s) (hsp : Span s) (t : Trace s s' L) :
@@ -161,22 +165,36 @@ theorem span_invariant (s s' : St) (L : List Stg) (hi : Inv s) (hsp : Span s) (t
 EVERY circuit): the provenance statements above are statements about the printed grid. -/
 theorem printed_iff_drawn (c : Circ) (s : St) (g : Grid) (h : exportSt c = .ok s) (hg : grid s = some g)
     (col r : Nat) (y : Sym) (hy : y.isWire = false) :
-    (g.col col)[r]? = some y ↔ ∃ cell, Has s col r cell ∧ cell.sym = y := by
-  have hs := (exportSt_shape h).2.2
-  constructor
-  · intro hc; exact has_of_grid hs hg hc hy
-  · rintro ⟨cell, hc, rfl⟩; exact grid_of_has hs hg hc
+    (g.col col)[r]? = some y ↔ ∃ cell, Has s col r cell ∧ cell.sym = y :=
+  ⟨fun hc => has_of_grid (exportSt_shape h).2.2 hg hc hy,
+   fun ⟨_, hc, he⟩ => he ▸ grid_of_has (exportSt_shape h).2.2 hg hc⟩
 
 /-- **stage_is_expected** (partial: one-column gates X Z Swap 1-qubit boxes and their controlled
-nestings at a good placement, measure, reset) — the reference stage used above is an acceptable drawing
-of exactly the marks the INDEPENDENT reader `Spec.QcGrid.opItems` demands of the operation: the
-operation has one stage item; every symbol of the stage sits on the wire of a mark that `accepts` it,
-and every mark has its symbol. (Not proved for Kron / Composite / Loop, conditional gates, measure_all,
-reset_all, barrier: there the agreement of `opStages` with `opItems` is evaluated by (B) only.) -/
+nestings at a good placement, plain or under a classical condition, measure, reset) — the reference
+stage used above is an acceptable drawing of exactly the marks the INDEPENDENT reader
+`Spec.QcGrid.opItems` demands of the operation: the operation has ONE stage item; every symbol of the
+stage sits on the wire of a mark that `accepts` it, and every mark has its symbol. (Kron / Composite /
+Loop / measure_all: `stages_are_expected_partial` below.) -/
 theorem stage_is_expected_partial (nq : Nat) (op : Op) (h : oneColumn op = true) :
     ∃ marks covers conn ws, opItems nq op = [.stage marks covers conn] ∧ opStages nq op = [ws] ∧
       StageMatches ws marks :=
   stage_is_expected nq op h
+
+/-- **stages_are_expected** (partial: all `opOk` operations except reset_all and barrier) — the tie of
+the reference drawing to the INDEPENDENT reader for Kron / Composite / Loop at any nesting depth as
+well: for every operation of the proved class with a well-formed operand list (`Op.malformed = false`,
+the reader's own notion), the visible reference stages (explicit identity wires dropped: the reader
+does not look for them) match the reader's stage items `opItems` ONE BY ONE AND IN ORDER, each stage
+being an acceptable drawing of exactly the marks of its item (`StageMatches`). Together with
+`each_op_once_partial` (the matrix is exactly the stages laid out, left to right, without collisions):
+every operation appears exactly once, as the reader expects it.
+Not covered: reset_all (the reader expects one stage per qubit, the code draws — legitimately — one
+column) and barrier (the reader expects one stage holding all runs): grouping differs, evaluated by (B);
+loop braces (header line) and the `connected` flag of a stage (that is `connector_span_clear_partial`). -/
+theorem stages_are_expected_partial (nq : Nat) (op : Op) (hop : opOk op = true) (hm : op.malformed nq = false)
+    (hk : matchable op = true) :
+    StagesMatch (visible (opStages nq op)) (itemStages (opItems nq op)) :=
+  opStages_items nq op hop hm hk
 
 /-! ## Tie to the source: templates and the gate table are re-extracted on every run -/
 
@@ -235,16 +253,25 @@ example : (exportSt sample >>== fun s => .ok (s.rcols.reverse.zipIdx.flatMap fun
     (circStages sample).filter (·.1 = 8) =
       [(8, [(2, .ctrl (-1)), (0, .ctrl 1), (1, .targ), (3, .cctrl (-1)), (4, .cctrlo (-1))])] := by decide
 
+/-- Every operation of `sample` is well-formed; 9 of the 11 are `matchable`. -/
+example : (sample.ops.all fun op => !(op.malformed sample.nq)) = true ∧ (sample.ops.filter matchable).length = 9 := by decide
+
 /-- One-column operations of `sample` for which `stage_is_expected_partial` applies. -/
-example : (sample.ops.filter oneColumn).length = 5 := by decide
+example : (sample.ops.filter oneColumn).length = 6 := by decide
 
 /-! ## Negative witnesses: the full property fails on the pinned code -/
 
 /-- D11: a control between its targets is a panic, not an error (and not a drawing). -/
 theorem neg_ctrl_between_targets_panics : circuitLatex ⟨3, 0, [.gate ccxGate [1, 0, 2]]⟩ = .panic := by decide
 
-/-- D11: `reset_all` on a circuit without qubits panics. -/
-theorem neg_resetall_zero_qubits_panics : circuitLatex ⟨0, 0, [.resetAll]⟩ = .panic := by decide
+/-- (was D11, repaired in /repo) `reset_all` on a circuit without qubits draws nothing and does not panic. -/
+theorem resetall_zero_qubits_draws_nothing :
+    circuitLatex ⟨0, 0, [.resetAll]⟩ = circuitLatex ⟨0, 0, []⟩ ∧ (circuitLatex ⟨0, 2, [.resetAll]⟩ matches .ok _) := by decide
+
+/-- (repaired in /repo) a barrier on no qubits draws nothing: no panic, no empty column. -/
+theorem empty_barrier_draws_nothing :
+    circuitLatex ⟨2, 0, [.gate (.box "H" 1) [0], .barrier [], .gate (.box "H" 1) [1]]⟩ =
+    circuitLatex ⟨2, 0, [.gate (.box "H" 1) [0], .gate (.box "H" 1) [1]]⟩ := by decide
 
 /-- D13: `if (b == 1) { H; X }` is exported exactly like `if (b == 1) X`: the H is lost. -/
 theorem neg_conditional_composite_overwrites :
